@@ -219,7 +219,10 @@ int Sched::run_pct(uint64_t seed, long maxsteps, int depth) {
         for (long cp : cps) if (cp == steps) { prio[best] = --low; break; }
         // eventual fairness: a thread that keeps the processor for very long while others could run is pre-empted (a waiter that spins
         // *with* side effects - re-registering in a wait set, say - would otherwise starve the thread it waits for)
-        if (best == last) { if (++streak >= fair && nrun > 1) { prio[best] = --low; streak = 0; } } else { last = best; streak = 0; }
+        // The length of the slice is drawn anew every time: with a fixed slice a thread whose loop period divides it would always be pre-empted in the same phase -
+        // e.g. always while it holds the spin lock the other thread is trying to take, which no real machine would sustain (strong fairness of lock acquisition
+        // is probabilistic there; here it has to be made so).
+        if (best == last) { if (++streak >= fair && nrun > 1) { prio[best] = --low; streak = 0; fair = 700 + (long)(rng() % 2300); } } else { last = best; streak = 0; }
     }
     g_est_len = (g_est_len * 7 + steps) / 8;
     return rc;
